@@ -27,6 +27,8 @@ pub struct Case {
     pub cc_flags: u8,
     pub cc_len_field: u16,
     pub block: &'static str,
+    /// 0 plain, 1 restricted admin, 2 blank credentials, 3 logon from the NT hash
+    pub mode: u8,
 }
 
 pub struct C02 {
@@ -82,7 +84,7 @@ impl Prop for C02 {
     }
     fn prepare(&mut self, tier: Tier) -> Result<(), String> {
         let mut cs = vec![];
-        let base = Case { direct_mask: None, use_nla: true, check_certificate: false, cert: Cert::A, cc_kind: CcKind::Response, selected: 2, cc_flags: 0, cc_len_field: 8, block: "base" };
+        let base = Case { direct_mask: None, use_nla: true, check_certificate: false, cert: Cert::A, cc_kind: CcKind::Response, selected: 2, cc_flags: 0, cc_len_field: 8, block: "base", mode: 0 };
         // A: every selected-protocol value x configuration (through the public connector)
         for use_nla in [true, false] {
             for check in [false, true] {
@@ -137,6 +139,10 @@ impl Prop for C02 {
                     if use_nla {
                         cs.push(Case { cert, check_certificate: check, use_nla, selected: 1, block: "certificate", ..base.clone() });
                     }
+                    // the same under the other logon modes (the certificate decision must not depend on them)
+                    for mode in 1..=3u8 {
+                        cs.push(Case { cert, check_certificate: check, use_nla, selected: if use_nla { 2 } else { 1 }, mode, block: "certificate-x-mode", ..base.clone() });
+                    }
                 }
             }
         }
@@ -161,7 +167,7 @@ impl Prop for C02 {
         json!({"idx": idx, "case": self.cases[idx as usize]})
     }
     fn rule(&self) -> String {
-        "cases = (connector configuration | offered mask, server certificate, connection-confirm contents). [selected-value] all 256 low-byte values, every single bit 2^8..2^31 and mixed patterns x NLA on/off x certificate checking on/off; [reply-kind] failure / echoed request / absent / every other type byte x 6 values; [flags] every flag byte x valid and invalid selection; [length-field]; [offered-mask] x224::Client::connect with masks {0,1,2,3,8,0xB} x 10 selections x 3 kinds; [certificate] trusted RSA, trusted EC, a leaf of a trusted root; and six kinds of untrusted certificate: unknown self-signed, trusted-but-expired, trusted-but-not-yet-valid, leaf of an unknown root, leaf naming the trusted root but signed by another key, trusted certificate with a flipped signature bit; x checking x NLA. Executed through the real Connector::connect over real TLS. Non-trivial: the reply is not the honest one for the configuration.".into()
+        "cases = (connector configuration | offered mask, server certificate, connection-confirm contents). [selected-value] all 256 low-byte values, every single bit 2^8..2^31 and mixed patterns x NLA on/off x certificate checking on/off; [reply-kind] failure / echoed request / absent / every other type byte x 6 values; [flags] every flag byte x valid and invalid selection; [length-field]; [offered-mask] x224::Client::connect with masks {0,1,2,3,8,0xB} x 10 selections x 3 kinds; [certificate] trusted RSA, trusted EC, a leaf of a trusted root; and six kinds of untrusted certificate: unknown self-signed, trusted-but-expired, trusted-but-not-yet-valid, leaf of an unknown root, leaf naming the trusted root but signed by another key, trusted certificate with a flipped signature bit; x checking x NLA x logon mode (plain, restricted admin, blank credentials, NT hash). Executed through the real Connector::connect over real TLS. Non-trivial: the reply is not the honest one for the configuration.".into()
     }
     fn assumptions(&self) -> Vec<String> {
         vec![
@@ -180,7 +186,7 @@ impl Prop for C02 {
         let c = self.cases[idx as usize].clone();
         let p = ServerParams { cc_kind: c.cc_kind.clone(), selected: c.selected, cc_flags: c.cc_flags, cc_len_field: c.cc_len_field, ..Default::default() };
         let offered: u32 = c.direct_mask.unwrap_or(if c.use_nla { 3 } else { 1 });
-        let cfg = ConnCfg { use_nla: c.use_nla, check_certificate: c.check_certificate, ..Default::default() };
+        let cfg = ConnCfg { use_nla: c.use_nla, check_certificate: c.check_certificate, restricted_admin: c.mode == 1, blank_creds: c.mode == 2, use_hash: c.mode == 3, ..Default::default() };
         let (ok, err, peer, _sh): (bool, String, Rc<RefCell<TlsPeer>>, _) = match c.direct_mask {
             None => match tls_connect(&cfg, p, vec![], c.cert) {
                 Ok(t) => (t.client.is_some(), t.error.clone().unwrap_or_default(), t.peer.clone(), t.sh.clone()),
